@@ -68,6 +68,17 @@ func (c *trCtx) funcValAs(e ast.Expr, ty types.Type) (string, bool) {
 				return c.declaredFuncVal(fo, x.Pos()), true
 			}
 		}
+	case *ast.IndexListExpr: // F[T1, T2]
+		switch y := trUnparen(x.X).(type) {
+		case *ast.Ident:
+			if fo, ok := c.info().Uses[y].(*types.Func); ok {
+				return c.declaredFuncVal(fo, x.Pos()), true
+			}
+		case *ast.SelectorExpr:
+			if fo, ok := c.info().Uses[y.Sel].(*types.Func); ok {
+				return c.declaredFuncVal(fo, x.Pos()), true
+			}
+		}
 	case *ast.IndexExpr: // F[T]
 		switch y := trUnparen(x.X).(type) {
 		case *ast.Ident:
